@@ -15,3 +15,16 @@ package cli
 //@ func loadPackagesWithDeps
 //@   noframe
 //@   ensures [C15.site] true
+
+// ---- C13: the audit's exit status follows the verdict, failing closed
+//@ func RunAudit
+//@   noframe
+//@   ghost llmCalled bool
+//@   ghost llmOK bool
+//@   ghost llmVerdict string
+//@   init llmCalled = false
+//@   call llm.CallLLM update llmCalled = true
+//@   call llm.CallLLM update llmOK = result1 == nil
+//@   call llm.CallLLM update llmVerdict = result0.Verdict
+//@   ensures [C13.exit] result0 == 0 ==> result1 == nil && (!llmCalled || (llmOK && llmVerdict == "MATCH"))
+//@   ensures [C13.exit] result0 == 0 || result0 == 1
